@@ -25,6 +25,7 @@
 
 #include "../chaiscript_defines.hpp"
 #include "../chaiscript_threading.hpp"
+#include "../chaiscript_verif.hpp"
 #include "../utility/quick_flat_map.hpp"
 #include "bad_boxed_cast.hpp"
 #include "boxed_cast.hpp"
@@ -405,6 +406,7 @@ namespace chaiscript {
         auto &stack_elem = get_stack_data(t_holder).back();
 
         if (auto result = stack_elem.insert(std::pair{std::move(t_name), std::move(obj)}); result.second) {
+          CHAISCRIPT_VERIF_EVENT("add", &t_holder, result.first->first, 0, 0, 0, "");
           return result.first->second;
         } else {
           // insert failed
@@ -422,6 +424,11 @@ namespace chaiscript {
           // insert failed
           throw chaiscript::exception::name_conflict_error(result.first->first);
         }
+#ifdef CHAISCRIPT_VERIF
+        else {
+          CHAISCRIPT_VERIF_EVENT("add", &t_holder, result.first->first, 0, 0, 0, "");
+        }
+#endif
       }
 
       /// Adds a named object to the current scope
@@ -477,6 +484,7 @@ namespace chaiscript {
       static void new_scope(Stack_Holder &t_holder) {
         t_holder.push_stack_data();
         t_holder.push_call_params();
+        CHAISCRIPT_VERIF_EVENT("ns", &t_holder, "", 0, 0, 0, "");
       }
 
       /// Pops the current scope from the stack
@@ -487,15 +495,24 @@ namespace chaiscript {
         assert(!stack.empty());
 
         stack.pop_back();
+        CHAISCRIPT_VERIF_EVENT("ps", &t_holder, "", 0, 0, 0, "");
       }
 
       /// Pushes a new stack on to the list of stacks
       static void new_stack(Stack_Holder &t_holder) {
         // add a new Stack with 1 element
         t_holder.push_stack();
+        CHAISCRIPT_VERIF_EVENT("nst", &t_holder, "", 0, 0, 0, "");
       }
 
+#ifndef CHAISCRIPT_VERIF
       static void pop_stack(Stack_Holder &t_holder) { t_holder.stacks.pop_back(); }
+#else
+      static void pop_stack(Stack_Holder &t_holder) {
+        t_holder.stacks.pop_back();
+        CHAISCRIPT_VERIF_EVENT("pst", &t_holder, "", 0, 0, 0, "");
+      }
+#endif
 
       /// Searches the current stack for an object of the given name
       /// includes a special overload for the _ place holder object to
@@ -510,6 +527,14 @@ namespace chaiscript {
 
         uint_fast32_t loc = t_loc;
 
+#ifdef CHAISCRIPT_VERIF
+        if (chaiscript::verif::hooks().disable_lookup_hints && loc != 0) {
+          // hint-free reference behaviour: forget what was learned about locals and search by name every time;
+          // a function index is kept, it is verified by name before use
+          loc = 0;
+        }
+#endif
+
         if (loc == 0) {
           auto &stack = get_stack_data(t_holder);
 
@@ -520,6 +545,13 @@ namespace chaiscript {
                 t_loc = static_cast<uint_fast32_t>(std::distance(stack.rbegin(), stack_elem) << 16)
                     | static_cast<uint_fast32_t>(std::distance(stack_elem->begin(), s)) | static_cast<uint_fast32_t>(Loc::located)
                     | static_cast<uint_fast32_t>(Loc::is_local);
+                CHAISCRIPT_VERIF_EVENT("get",
+                                       &t_holder,
+                                       name,
+                                       0,
+                                       static_cast<long>(std::distance(stack.rbegin(), stack_elem)),
+                                       static_cast<long>(std::distance(stack_elem->begin(), s)),
+                                       s->first);
                 return s->second;
               }
             }
@@ -529,6 +561,23 @@ namespace chaiscript {
         } else if ((loc & static_cast<uint_fast32_t>(Loc::is_local)) != 0u) {
           auto &stack = get_stack_data(t_holder);
 
+#ifdef CHAISCRIPT_VERIF
+          {
+            // logged before the positional read so that an out of range hint is recorded even if the read then faults
+            const auto verif_dist = static_cast<std::size_t>((loc & static_cast<uint_fast32_t>(Loc::stack_mask)) >> 16);
+            const auto verif_slot = static_cast<std::size_t>(loc & static_cast<uint_fast32_t>(Loc::loc_mask));
+            const bool verif_in_range = verif_dist < stack.size() && verif_slot < stack[stack.size() - 1 - verif_dist].size();
+            CHAISCRIPT_VERIF_EVENT("get",
+                                   &t_holder,
+                                   name,
+                                   1,
+                                   verif_in_range ? static_cast<long>(verif_dist) : -2,
+                                   verif_in_range ? static_cast<long>(verif_slot) : -2,
+                                   verif_in_range ? std::string_view((stack[stack.size() - 1 - verif_dist].begin() + static_cast<std::ptrdiff_t>(verif_slot))->first)
+                                                  : std::string_view(""));
+          }
+#endif
+
           return stack[stack.size() - 1 - ((loc & static_cast<uint_fast32_t>(Loc::stack_mask)) >> 16)].at_index(
               loc & static_cast<uint_fast32_t>(Loc::loc_mask));
         }
@@ -537,6 +586,7 @@ namespace chaiscript {
         chaiscript::detail::threading::shared_lock<chaiscript::detail::threading::shared_mutex> l(m_mutex);
 
         const auto itr = m_state.m_global_objects.find(name);
+        CHAISCRIPT_VERIF_EVENT("get", &t_holder, name, itr != m_state.m_global_objects.end() ? 2 : 3, -1, -1, "");
         if (itr != m_state.m_global_objects.end()) {
           return itr->second;
         }
@@ -676,6 +726,12 @@ namespace chaiscript {
         auto &stack = get_stack_data();
         auto &scope = stack.front();
         scope.assign(t_locals.begin(), t_locals.end());
+#ifdef CHAISCRIPT_VERIF
+        CHAISCRIPT_VERIF_EVENT("setl0", &get_stack_holder(), "", 0, 0, 0, "");
+        for (const auto &verif_local : t_locals) {
+          CHAISCRIPT_VERIF_EVENT("setl", &get_stack_holder(), verif_local.first, 0, 0, 0, "");
+        }
+#endif
       }
 
       ///
@@ -980,10 +1036,12 @@ namespace chaiscript {
         for (auto &&param : t_params) {
           t_s.call_params.back().insert(t_s.call_params.back().begin(), std::move(param));
         }
+        CHAISCRIPT_VERIF_EVENT("sp", &t_s, "", static_cast<long>(t_s.call_params.size()), static_cast<long>(t_s.call_params.back().size()), 0, "");
       }
 
       static void save_function_params(Stack_Holder &t_s, const Function_Params &t_params) {
         t_s.call_params.back().insert(t_s.call_params.back().begin(), t_params.begin(), t_params.end());
+        CHAISCRIPT_VERIF_EVENT("sp", &t_s, "", static_cast<long>(t_s.call_params.size()), static_cast<long>(t_s.call_params.back().size()), 0, "");
       }
 
       void save_function_params(std::vector<Boxed_Value> &&t_params) { save_function_params(*m_stack_holder, std::move(t_params)); }
@@ -998,6 +1056,13 @@ namespace chaiscript {
         ++t_s.call_depth;
 
         save_function_params(m_conversions.take_saves(t_saves));
+        CHAISCRIPT_VERIF_EVENT("fc+",
+                               &t_s,
+                               "",
+                               t_s.call_depth,
+                               static_cast<long>(t_s.call_params.back().size()),
+                               (t_saves.enabled ? 1 : 0) + 2 * static_cast<long>(t_saves.saves.size()),
+                               "");
       }
 
       void pop_function_call(Stack_Holder &t_s, Type_Conversions::Conversion_Saves &t_saves) {
@@ -1009,6 +1074,13 @@ namespace chaiscript {
           t_s.call_params.back().clear();
           m_conversions.enable_conversion_saves(t_saves, false);
         }
+        CHAISCRIPT_VERIF_EVENT("fc-",
+                               &t_s,
+                               "",
+                               t_s.call_depth,
+                               static_cast<long>(t_s.call_params.back().size()),
+                               (t_saves.enabled ? 1 : 0) + 2 * static_cast<long>(t_saves.saves.size()),
+                               "");
       }
 
       void new_function_call() { new_function_call(*m_stack_holder, m_conversions.conversion_saves()); }
@@ -1016,6 +1088,23 @@ namespace chaiscript {
       void pop_function_call() { pop_function_call(*m_stack_holder, m_conversions.conversion_saves()); }
 
       Stack_Holder &get_stack_holder() noexcept { return *m_stack_holder; }
+
+#ifdef CHAISCRIPT_VERIF
+      /// Read-only view of the calling thread's evaluation stacks
+      chaiscript::verif::Stack_Shape verif_stack_shape() const {
+        const Stack_Holder &s = *m_stack_holder;
+        const auto &saves = m_conversions.conversion_saves();
+        chaiscript::verif::Stack_Shape shape;
+        shape.stacks = s.stacks.size();
+        shape.scopes_in_top_stack = s.stacks.empty() ? 0 : s.stacks.back().size();
+        shape.call_params = s.call_params.size();
+        shape.call_params_back = s.call_params.empty() ? 0 : s.call_params.back().size();
+        shape.call_depth = s.call_depth;
+        shape.saves_enabled = saves.enabled;
+        shape.saves = saves.saves.size();
+        return shape;
+      }
+#endif
 
       /// Returns the current stack
       /// make const/non const versions
